@@ -525,6 +525,8 @@ pub fn free_scenarios() -> Vec<&'static str> {
         "n=3 init=[(0, 1), (0, 2)] | connect(0,0); connect(0,1); connect(0,2); connect(0,0) || walk(0); q_conn(0,2); walk(0)",
         "n=3 init=[(0, 1), (0, 2), (0, 0)] | disconnect(0,1); disconnect(0,0) || walk(0); q_conn(0,2); walk(0)",
         "n=2 init=[(0, 1), (1, 0)] | walk(0) || walk(1) || connect(0,0)",
+        // four threads on the real lock: two depth-first searches crossing a cycle from opposite ends, one writer per node
+        "n=2 init=[(0, 1), (1, 0)] | dfs(0) || dfs(1) || connect(0,0) || connect(1,1)",
     ]
 }
 
